@@ -250,6 +250,93 @@ def evaluate(ctx, cases, exe, model):
     return corr, orc, known
 
 
+# ---------------------------------------------------------------------------------------------
+# K-C13-2: the model of the level="any" walk (StripDefs.number_any) against the library, on the original
+# document with declarations and on the physically stripped document without
+
+NUMBER_PROBE = ('<xsl:output method="text"/><xsl:template match="/"><xsl:for-each select="/*/descendant-or-self::node()">'
+                '<xsl:number level="any" count="node()" from="b"/>:<xsl:number level="any" count="text()" from="a|c"/>,</xsl:for-each></xsl:template>')
+NUMBER_PATTERNS = [  # (from, count) as predicates on a generated node
+    (lambda n: n["k"] == "e" and n["ns"] == 0 and n["local"] == "b", lambda n: True),
+    (lambda n: n["k"] == "e" and n["ns"] == 0 and n["local"] in ("a", "c"), lambda n: n["k"] == "t"),
+]
+
+
+def number_walk_lines(case, drop):
+    """for every visible node below the root, in document order, and both pattern pairs: the walk list"""
+    dropset = set(id(n) for n in drop)
+    pre = []          # (node, depth) in document order, the document element included
+
+    def visit(n, d):
+        pre.append((n, d))
+        if n["k"] == "e":
+            for k in n["kids"]:
+                visit(k, d + 1)
+    if case["doc"]["prolog"].strip():      # a comment or processing instruction before the document element: a preceding sibling
+        pre.append(({"k": "c", "prolog": True}, 0))
+    visit(case["doc"]["root"], 0)
+    lines, keys = [], []
+    for i, (n, d) in enumerate(pre):
+        if id(n) in dropset or n.get("prolog"):
+            continue
+        for pi, (frm, cnt) in enumerate(NUMBER_PATTERNS):
+            items = []
+            for (m, dm) in reversed(pre[:i + 1]):
+                st = id(m) in dropset
+                items.append("%d.%d.%d.%d" % (dm, 0 if st else int(frm(m)), 0 if st else int(cnt(m)), int(st)))
+            key = "%s_%d_%d" % (case["id"], i, pi)
+            keys.append(key)
+            lines.append(key + " N " + " ".join(items))
+    return lines, keys
+
+
+def number_correspondence(ctx, cases, exe, model):
+    """-> list of mismatch descriptions"""
+    jobs, meta = [], {}
+    for c in cases:
+        a, b, p, drop, xs = jobs_of(c)
+        if xs:
+            continue
+        ja = dict(a, id=c["id"] + "NA", sheet=sg.module_text(c["main"], True, NUMBER_PROBE, seps=c.get("seps")))
+        jb = dict(b, id=c["id"] + "NB", sheet=sg.module_text(c["main"], False, NUMBER_PROBE))
+        jobs += [ja, jb]
+        meta[c["id"]] = (ja, jb, drop)
+    res = run_all(jobs, exe)
+    bad = []
+    lines, per = [], {}
+    for c in cases:
+        if c["id"] not in meta:
+            continue
+        l, keys = number_walk_lines(c, meta[c["id"]][2])
+        lines += l
+        per[c["id"]] = keys
+    rc, mres, raw = core.run_lines_parallel(model, lines)
+    differing = 0
+    for c in cases:
+        if c["id"] not in meta:
+            continue
+        ja, jb, drop = meta[c["id"]]
+        ra, rb = res[ja["id"]], res[jb["id"]]
+        if ra[0] != "ok" or rb[0] != "ok":
+            bad.append("%s: number probe failed %r %r" % (c["id"], ra[:2], rb[:2]))
+            continue
+        ctx.cov["traces_validated_against_impl"] += 1
+        keys = per[c["id"]]
+        exp_a, exp_b = [], []
+        for k in range(0, len(keys), 2):
+            va = [mres.get(keys[k + j], "? ?").split(" ") for j in (0, 1)]
+            exp_a.append(":".join("" if v[0] == "0" else v[0] for v in va))
+            exp_b.append(":".join("" if v[1] == "0" else v[1] for v in va))
+        got_a = ra[1].decode().split(",")[:-1]
+        got_b = rb[1].decode().split(",")[:-1]
+        if got_a != exp_a or got_b != exp_b:
+            bad.append("%s: xsl:number level=any walk: library A %s B %s, model A %s B %s" % (c["id"], got_a[:30], got_b[:30], exp_a[:30], exp_b[:30]))
+        if got_a != got_b:
+            differing += 1
+    ctx.notes["number_any_from_cases_where_A_differs_from_B"] = differing
+    return bad
+
+
 def shrink_blocks(case, exe):
     """which single observation block already shows the A/B difference"""
     for bn in case["blocks"]:
@@ -354,6 +441,10 @@ def run(ctx):
     xs_cases += [gen_case(ctx, "y%d" % i, "number-any-from", blocks=["number-any-from"]) for i in range(12 if not ctx.thorough else 200)]
     ctx.cov["samples"] = [sg.sheet_model(c["main"]) + " on " + sg.serialize(c["doc"])[:120] for c in cases[200:206]]
     corr, orc, kn = evaluate(ctx, cases + xs_cases, exe, model)
+    if model:
+        nbad = number_correspondence(ctx, [c for c in xs_cases if c["cls"] == "number-any-from"], exe, model)
+        if nbad:
+            ctx.broken.append("correspondence number walk (K-C13-2 model): %d cases differ, e.g. %s" % (len(nbad), nbad[0][:400]))
     if (corr or not proved or not model or ctx.broken) and not orc and not ctx.thorough:
         ctx.escalated = True
         more = gen_cases(ctx, 2500, prefix="e")
